@@ -38,18 +38,25 @@ def run_unit(A, unit, rep, tier):
         for rho in ("root", "nested"):
             for mu in A.modes(cls):
                 b, g = A.graph(cls, m, rho, mu)
-                reads = [n for n in live(g) if n.kind == "data_read" and n["owner"].args[2] == "T" and not n.in_extent("_load") and not n.in_extent("_load_from_buffer")]
+                reads = [n for n in live(g) if n.kind == "data_read" and (n["owner"].args[2] == "T" or str(n["owner"].args[2]).startswith("P:")) and not n.in_extent("_load") and not n.in_extent("_load_from_buffer")]
                 rep.context(g.label, bool(reads))
+                bad = []
+                for tree in sorted({n["owner"].args[2] for n in reads}):
+                    if tree == "T":
+                        L = loads_done(g, mu)
+                    else:
+                        # another collection passed as an argument (recognised by isinstance(other, type(self)))
+                        L = [x.id for x in live(g) if x.kind == "leave" and x["fname"] in ("_load_from_resource", "_load_from_buffer") and x["recv"] is not None and x["recv"].kind == "inst" and x["recv"].args[2] == tree]
+                    reach = g.reachable_from([g.entry], avoid=L)
+                    bad += [n for n in reads if n["owner"].args[2] == tree and n.id in reach]
                 L = loads_done(g, mu)
-                reach = g.reachable_from([g.entry], avoid=L)
-                bad = [n for n in reads if n.id in reach]
                 if not bad:
                     rep.ok("C02.a", f"C02.a {g.label}: all {len(reads)} reads of _data are preceded by a completed load of the root")
                 else:
                     n = bad[0]
-                    rep.fail("C02.a", norm_key("C02.a", f.qualname, f"rho={rho}"),
+                    rep.fail("C02.a", norm_key("C02.a", f.qualname, f"rho={rho}") if n["owner"].args[2] == "T" else norm_key("C02.a", f.qualname, "operand"),
                              f"read operation {f.qualname} reads the cached data (`{n.stmt}` in {n.func}) on a path that has not loaded the backend's current content",
-                             g.witness(g.path(g.entry, [n.id], avoid=L)), g.label)
+                             g.witness(g.path(g.entry, [n.id], avoid=L if n["owner"].args[2] == "T" else [])), g.label)
     # C02.b load feeds merge
     owner, lv = A.model.lookup(cls, "_load")
     for mu in A.modes(cls):
@@ -69,8 +76,17 @@ def run_unit(A, unit, rep, tier):
                 ok = False
                 rep.fail("C02.b", norm_key("C02.b", u.stack[-2][0] if len(u.stack) > 1 else lv.func.qualname, u.stmt),
                          f"the value merged by `{u.stmt}` is not the value returned by the loader on that path (got {show(d)[:80]})", [u.where() + ": " + u.stmt], g.label)
+        if ok and not shared_mem:
+            loaders = [n.id for n in live(g) if n.kind == "leave" and n["fname"] in ("_load_from_resource", "_load_from_buffer") and recv_is_root_T(n) and len(n.stack) == 2]
+            for l in loaders:
+                w = g.must_pass(l, [g.exit], [u.id for u in ups])
+                if w is not None:
+                    ok = False
+                    rep.fail("C02.b", norm_key("C02.b", lv.func.qualname, "conditional-merge"),
+                             f"{lv.func.qualname}: after loading there is a path that returns without merging the loaded data into the tree (a stale cache is presented as current)", g.witness(w), g.label)
+                    break
         if ok:
-            rep.ok("C02.b", f"C02.b {g.label}: {len(ups)} merge call(s) receive exactly the loader's return value")
+            rep.ok("C02.b", f"C02.b {g.label}: {len(ups)} merge call(s) receive exactly the loader's return value, unconditionally")
 
 
 def update_impls(A):
@@ -127,10 +143,25 @@ def check_merge(A, rep):
                 rep.fail("C02.c", norm_key("C02.c", func.qualname, "tail"), f"{func.qualname}: the list merge no longer truncates or no longer extends the tail", [], g.label)
         else:
             rem = [n for n in top if n.kind == "data_mut" and n["op"] in ("delitem", "pop")]
+            uncond = False
             if rem:
+                # the removal pass (the loop around the delete) must lie on every path from the merge loop to the exit
+                rheads = [h.id for h in heads if any(g.path(h.id, [r.id]) and g.path(r.id, [h.id]) for r in rem)]
+                uncond = bool(rheads) and all(g.must_pass(h.id, [g.exit], rheads, labels=("n", "T", "F")) is None for h in elem_heads)
+            if rem and uncond:
                 rep.ok("C02.c", f"C02.c {func.qualname}: keys absent from the loaded data are removed")
+            elif rem:
+                rep.fail("C02.c", norm_key("C02.c", func.qualname, "removal-conditional"), f"{func.qualname}: the pass that removes keys which disappeared from the backend can be skipped (it is guarded by a condition)", [], g.label)
             else:
                 rep.fail("C02.c", norm_key("C02.c", func.qualname, "removal"), f"{func.qualname}: keys that disappeared from the backend are no longer removed from the cached tree", [], g.label)
+        # C02.g a silent (no mutation, no error) return is only allowed for the no-data sentinel `None`
+        muts = [n.id for n in lv if n.kind == "data_mut"] + [n.id for n in lv if n.kind == "raise"] + [h.id for h in heads]
+        none_arms = [n.id for n in top if n.kind == "arm" and _excludes_none(g.nodes[n["branch"]]["cond"], not n["arm"], Val("param", "data")) ]
+        w = g.path(g.entry, [g.exit], avoid=muts + none_arms)
+        if w is None:
+            rep.ok("C02.g", f"C02.g {func.qualname}: returns without merging only for data is None")
+        else:
+            rep.fail("C02.g", norm_key("C02.g", func.qualname), f"{func.qualname} can return without merging although the data is not None (e.g. an empty container is treated as 'no data')", g.witness(w), g.label)
         # C02.d None convention at child _update call sites
         calls = [n for n in lv if (n.kind == "enter" and n["fname"] == "_update" and len(n.stack) == 2 and n["recv"].args[1] == "nested")
                  or (n.kind == "recurse" and n["func"].endswith("._update") and len(n.stack) == 1)]
@@ -233,5 +264,20 @@ def check_loaders(A, rep):
                 rep.fail("C02.f", norm_key("C02.f", func.qualname, h.stmt),
                          f"{func.qualname}: handler `{h.stmt}` can turn an error other than 'resource missing' into a normal return (the cached data would be presented as current)",
                          g.witness(w), g.label)
+        def content_read(n):
+            if n.kind == "call_unknown" and n["method"] in ("read", "readlines", "readline", "readall") and n["recv"] is not None:
+                r = recv_root(n["recv"])
+                return r is not None and r.kind == "call" and r.args[0] == "builtins.open"
+            if n.kind == "call_ext" and n["callee"] in ("json.load",):
+                return True
+            return is_res_read(n) and n.kind != "call_ext"
+
+        content = [n.id for n in live(g) if content_read(n)]
+        missing = [n.id for n in live(g) if n.kind == "handler"]
+        w = g.must_pass(g.entry, [g.exit], content + missing)
+        if w is not None or not content:
+            ok = False
+            rep.fail("C02.f", norm_key("C02.f", func.qualname, "no-content-read"),
+                     f"{func.qualname} can return without reading the resource's content (e.g. a 'nothing changed' shortcut based on metadata): outside rewrites are not seen", g.witness(w or []), g.label)
         if ok:
-            rep.ok("C02.f", f"C02.f {func.qualname}: only a missing resource yields None; {len(hs)} handler(s) re-raise everything else")
+            rep.ok("C02.f", f"C02.f {func.qualname}: only a missing resource yields None; {len(hs)} handler(s) re-raise everything else; every path reads the content")
